@@ -121,19 +121,12 @@ Definition read_file_header (d : header) : option bms_meta :=
       end
   end.
 
-(* parse state of _read_notes; hits/holds newest first *)
+(* parse state of _read_notes: tempo changes and the note objects of the lanes, newest first *)
 Record hitp := mkHitp { hp_col : Z; hp_sample : text; hp_snap : snap }.
 Record holdp := mkHoldp { lp_hit : hitp; lp_tail : snap }.
-Record rstate := mkRS { r_bcs : list bcs; r_hits : list hitp; r_holds : list holdp; r_ts : list (Z * Q) }.
+Record lobj := mkLobj { lo_col : Z; lo_snap : snap; lo_pair : text }.      (* lane_objs[column].append((snap, pair)) *)
+Record rstate := mkRS { r_bcs : list bcs; r_objs : list lobj; r_ts : list (Z * Q) }.
 
-(* hits[column].pop(-1): the newest hit of that column *)
-Fixpoint pop_col (c : Z) (l : list hitp) : option (hitp * list hitp) :=
-  match l with
-  | [] => None
-  | h :: l' =>
-      if hp_col h =? c then Some (h, l')
-      else match pop_col c l' with Some (x, r) => Some (x, h :: r) | None => None end
-  end.
 Fixpoint ts_get (m : Z) (ts : list (Z * Q)) : option Q :=
   match ts with [] => None | (k, v) :: r => if k =? m then Some v else ts_get m r end.
 Fixpoint ts_set (m : Z) (q : Q) (ts : list (Z * Q)) : list (Z * Q) :=
@@ -166,24 +159,15 @@ Section ReadNotes.
         | Some bpm =>
             match snap_norm measure beat metronome with
             | None => None
-            | Some s => Some (mkRS (mkBcs bpm metronome s :: r_bcs st) (r_hits st) (r_holds st) (r_ts st))
+            | Some s => Some (mkRS (mkBcs bpm metronome s :: r_bcs st) (r_objs st) (r_ts st))
             end
         end
       else
         match layout_get cfg channel with
         | None => Some st
         | Some column =>
-            if (column <? 0) || (max_keys <=? column) then None        (* hits[column] *)
-            else
-              let s := mkSnap measure beat 0 in
-              if text_is pr (m_lnobj meta) then
-                match pop_col column (r_hits st) with
-                | None => None                                         (* Failed to match LN Tail *)
-                | Some (h, rest) => Some (mkRS (r_bcs st) rest (mkHoldp h s :: r_holds st) (r_ts st))
-                end
-              else
-                let smp := match dict_get pr (m_samples meta) with Some v => v | None => [] end in
-                Some (mkRS (r_bcs st) (mkHitp column smp s :: r_hits st) (r_holds st) (r_ts st))
+            if (column <? 0) || (max_keys <=? column) then None        (* lane_objs[column] *)
+            else Some (mkRS (r_bcs st) (mkLobj column (mkSnap measure beat 0) pr :: r_objs st) (r_ts st))
         end.
 
   Fixpoint read_pairs (measure : Z) (channel : text) (division : Z) (metronome : Q)
@@ -205,7 +189,7 @@ Section ReadNotes.
         if text_is (ne_channel d) ch_ts then
           match parse_decimal (ne_seq d) with
           | None => None
-          | Some f => Some (mkRS (r_bcs st) (r_hits st) (r_holds st) (ts_set measure (Qred (f * 4)%Q) (r_ts st)))
+          | Some f => Some (mkRS (r_bcs st) (r_objs st) (ts_set measure (Qred (f * 4)%Q) (r_ts st)))
           end
         else
           let division := Z.of_nat (length (ne_seq d)) / 2 in
@@ -224,9 +208,35 @@ Record hit := mkHit { h_col : Z; h_off : Q; h_sample : text }.
 Record hold := mkHold { ho_col : Z; ho_off : Q; ho_len : Q; ho_sample : text }.
 Record bms_chart := mkChart { c_hits : list hit; c_holds : list hold; c_bpms : list bco; c_meta : bms_meta }.
 
-(* [(k, h) for k, col in enumerate(hits) for h in col] : by column, inside a column in parse order *)
-Definition by_column {A} (col : A -> Z) (max_keys : Z) (l : list A) : list A :=
-  flat_map (fun k => filter (fun x => col x =? Z.of_nat k) l) (seq 0 (Z.to_nat max_keys)).
+(* the pairing loop after the line loop, for one lane: objects in time order (stable sort by Snap); an LNOBJ object
+   pops the last hit of the lane (None: 'Failed to match LN Tail'); hits / holds newest first while scanning *)
+Fixpoint pair_lane (lnobj : text) (samples : list (text * text)) (hits_rev : list hitp) (holds_rev : list holdp)
+         (objs : list lobj) : option (list hitp * list holdp) :=
+  match objs with
+  | [] => Some (rev hits_rev, rev holds_rev)
+  | o :: r =>
+      if text_eqb (lo_pair o) lnobj then
+        match hits_rev with
+        | [] => None
+        | h :: hs => pair_lane lnobj samples hs (mkHoldp h (lo_snap o) :: holds_rev) r
+        end
+      else
+        let smp := match dict_get (lo_pair o) samples with Some v => v | None => [] end in
+        pair_lane lnobj samples (mkHitp (lo_col o) smp (lo_snap o) :: hits_rev) holds_rev r
+  end.
+Definition lobj_lt (a b : lobj) : bool := snap_lt (lo_snap a) (lo_snap b).
+(* for column, objs in enumerate(lane_objs): ... ; results by column, inside a column in time order *)
+Fixpoint pair_lanes (lnobj : text) (samples : list (text * text)) (objs : list lobj) (cols : list nat)
+  : option (list hitp * list holdp) :=
+  match cols with
+  | [] => Some ([], [])
+  | k :: ks =>
+      match pair_lane lnobj samples [] [] (sort_by lobj_lt (filter (fun o => lo_col o =? Z.of_nat k) objs)),
+            pair_lanes lnobj samples objs ks with
+      | Some (hs, ls), Some (hs', ls') => Some (hs ++ hs', ls ++ ls')
+      | _, _ => None
+      end
+  end.
 
 Fixpoint zip3 {A B C D} (f : A -> B -> C -> D) (a : list A) (b : list B) (c : list C) : list D :=
   match a, b, c with
@@ -240,7 +250,7 @@ Definition read_notes (tbl : list Q) (cfg : layout) (max_keys : Z) (meta : bms_m
   match layout_rev cfg V_TIME_SIG, layout_rev cfg V_BPM, layout_rev cfg V_EXBPM with
   | Some ch_ts, Some ch_bpm, Some ch_ex =>
       let bcs0 := mkBcs (m_bpm meta) 4 (mkSnap 0 0 4) in
-      match read_entries cfg max_keys meta ch_ts ch_bpm ch_ex (mkRS [bcs0] [] [] []) data with
+      match read_entries cfg max_keys meta ch_ts ch_bpm ch_ex (mkRS [bcs0] [] []) data with
       | None => None
       | Some st =>
           let bcs_s := rev (r_bcs st) in
@@ -253,8 +263,9 @@ Definition read_notes (tbl : list Q) (cfg : layout) (max_keys : Z) (meta : bms_m
           match from_bcs 0 bcs_s with
           | None => None
           | Some tm =>
-              let hits := by_column hp_col max_keys (rev (r_hits st)) in
-              let holds := by_column (fun h => hp_col (lp_hit h)) max_keys (rev (r_holds st)) in
+            match pair_lanes (m_lnobj meta) (m_samples meta) (rev (r_objs st)) (seq 0 (Z.to_nat max_keys)) with
+            | None => None                                             (* Failed to match LN Tail *)
+            | Some (hits, holds) =>
               let hits_out :=
                 match hits with
                 | [] => Some []
@@ -277,6 +288,7 @@ Definition read_notes (tbl : list Q) (cfg : layout) (max_keys : Z) (meta : bms_m
               | Some hs, Some ls, Some bp => Some (hs, ls, bp)
               | _, _, _ => None
               end
+            end
           end
       end
   | _, _, _ => None                                                    (* config_rev[...] : KeyError *)
